@@ -41,6 +41,15 @@ def gen_cases(rng, n, runner):
             cases.setdefault("rd %s %d %s" % (pk, code, tg.hx(m)), (kind, is_struct and len(m) < len(b)))
         for m, kind in mf.bitflips(b, rng) + mf.overwrites(b, pk, rng):
             cases.setdefault("rd %s %d %s" % (pk, code, tg.hx(m)), (kind, False))
+        # the skippers are decoders too (generated decoders skip unknown fields): in-memory, asynchronous, and a
+        # tolerant struct reader that skips some field ids
+        for m, kind in mf.truncations(b, rng, cap=8) + mf.overwrites(b, pk, rng, cap=12) + mf.bitflips(b, rng, cap=6):
+            cases.setdefault("sk %s sync %d %s -" % (pk, code, tg.hx(m)), ("skip-" + kind, False))
+            cases.setdefault("sk %s async:%s %d %s -" % (pk, rng.choice(["all", "b1"]), code, tg.hx(m)), ("askip-" + kind, False))
+            if is_struct:
+                ids = ",".join(str(i) for i in sorted(set(rng.choice([1, 2, 3, 5, 16, 200, -3]) for _ in range(2))))
+                cases.setdefault("rds %s sync %s %s" % (pk, tg.hx(m), ids), ("tolerant-" + kind, False))
+                cases.setdefault("rds %s async:%s %s %s" % (pk, rng.choice(["all", "b1", "h"]), tg.hx(m), ids), ("atolerant-" + kind, False))
         # asynchronous reader: a few truncations / corruptions under different delivery schedules
         for m, kind in (mf.truncations(b, rng, cap=6) + mf.overwrites(b, pk, rng, cap=6) + [(b, "valid")]):
             sched = rng.choice(["all", "b1", "h", "b1/p1"])
@@ -66,7 +75,8 @@ def strip_impl(o):
 def oracle(case, meta, out):
     """C09 restated on the implementation's output alone"""
     kind, strict_prefix = meta
-    nbytes = 0 if case.split(" ")[3] == "-" else len(case.split(" ")[3]) // 2
+    hxs = case.split(" ")[4 if case.startswith("sk ") else 3]
+    nbytes = 0 if hxs == "-" else len(hxs) // 2
     if out.startswith("panic"):
         return "decoder panicked"
     if out.startswith("CRASH"):
@@ -88,7 +98,7 @@ def oracle(case, meta, out):
 def run(chk, replay=None):
     gate, hb = core.std_setup(chk)
     rng = random.Random(chk.seed)
-    n = 12000 if chk.tier == "quick" else 250000
+    n = 20000 if chk.tier == "quick" else 300000
     have_model = gate is not None and core.os.path.exists(core.RUNNER)
     if replay is not None:
         items = [(replay["case"], tuple(replay.get("meta", ("replay", False))))]
@@ -129,7 +139,7 @@ def run(chk, replay=None):
     chk.cov["disagreements_checked"] = len(cases) * len(bins)
     chk.cov["model_impl_mismatches"] = len(mism)
     chk.cov["distribution"] = dict(kinds=kinds, outcomes=outcome,
-                                   max_input_bytes=max((len(c.split(" ")[3]) // 2 for c in cases), default=0))
+                                   max_input_bytes=max((len(c.split(" ")[4 if c.startswith("sk ") else 3]) // 2 for c in cases), default=0))
     for c, meta, why, o in failing[:3]:
         chk.violation("C09 fails on the implementation: " + why, dict(kind="case", case=c, meta=list(meta), impl_output=o[:500]))
     if not failing:
